@@ -835,3 +835,118 @@ pub fn dom_attr_seq(ops: &str) -> Outcome {
     };
     Outcome { observed, expected, note: format!("ops={} elements E G (look-alike <e a='1'>t</e>) H (<f b='2' a='3'/>) M created; attribute nodes a(E) c(G) b,d(H) u,w created z foreign; El{{name=node:value}}", ops) }
 }
+
+// ------------------------------------------------------------------------------------------------
+// C05 / C09 / C10: the XPath corpus (tools/gen_xpath_corpus.py): expressions enumerated from a grammar over four documents, each with
+// the value two independent XPath 1.0 implementations (JDK javax.xml.xpath, libxml2) agree on.
+
+pub const XPATH_CORPUS: &str = include_str!("../data/xpath_corpus.txt");
+pub const XPATH_CORPUS_DOCS: &str = include_str!("../data/xpath_corpus_docs.txt");
+
+fn corpus_unesc(line: &str) -> String {
+    crate::ops_more::unescape_line(line)
+}
+
+struct CorpusDoc {
+    doc: xml_dom::XmlDocument,
+    tree: BTreeMap<usize, usize>,           // item id -> tree index
+    attrs: BTreeMap<usize, usize>,          // attribute id -> owner tree index
+}
+
+fn corpus_doc(text: &str) -> CorpusDoc {
+    use xml_dom::AsNode;
+    fn walk(n: &xml_dom::XmlNode, next: &mut usize, tree: &mut BTreeMap<usize, usize>, attrs: &mut BTreeMap<usize, usize>) {
+        for c in n.child_nodes().iter() {
+            match &c {
+                xml_dom::XmlNode::DocumentType(_) => {}
+                xml_dom::XmlNode::Element(_) => {
+                    let me = *next;
+                    tree.insert(c.id(), me);
+                    *next += 1;
+                    if let Some(map) = c.attributes() {
+                        for a in map.iter() {
+                            attrs.insert(a.as_node().id(), me);
+                        }
+                    }
+                    walk(&c, next, tree, attrs);
+                }
+                _ => {
+                    tree.insert(c.id(), *next);
+                    *next += 1;
+                }
+            }
+        }
+    }
+    let (_, doc) = xml_dom::XmlDocument::from_raw_with_context(text, xml_dom::Context::from_text_expanded(true)).unwrap();
+    let mut tree = BTreeMap::new();
+    let mut attrs = BTreeMap::new();
+    tree.insert(doc.as_node().id(), 0);
+    let mut next = 1;
+    walk(&doc.as_node(), &mut next, &mut tree, &mut attrs);
+    CorpusDoc { doc, tree, attrs }
+}
+
+thread_local! {
+    static CORPUS_DOCS: std::cell::RefCell<Vec<Option<std::rc::Rc<CorpusDoc>>>> = const { std::cell::RefCell::new(Vec::new()) };
+}
+
+pub fn xpath_corpus(doc_index: usize, expr: &str, expected: &str) -> Outcome {
+    use xml_dom::{AsExpandedName, AsNode};
+    use xml_xpath::eval::model::{Context, Value};
+    let observed = match catch_unwind(AssertUnwindSafe(|| {
+        let cd = CORPUS_DOCS.with(|c| {
+            let mut c = c.borrow_mut();
+            while c.len() <= doc_index {
+                c.push(None);
+            }
+            if c[doc_index].is_none() {
+                let text = corpus_unesc(XPATH_CORPUS_DOCS.lines().nth(doc_index).unwrap());
+                c[doc_index] = Some(std::rc::Rc::new(corpus_doc(&text)));
+            }
+            c[doc_index].clone().unwrap()
+        });
+        let mut ctx = Context::default();
+        ctx.add_ns(Some("p"), "urn:p");
+        ctx.add_ns(Some("q"), "urn:q");
+        match xml_xpath::query(cd.doc.clone(), expr, &mut ctx) {
+            Err(e) => format!("Err({})", e),
+            Ok(Value::Boolean(b)) => format!("B:{}", b),
+            Ok(Value::Text(s)) => format!("S:{}", crate::esc(&s)),
+            Ok(Value::Number(x)) => {
+                let want_str = expected.strip_prefix("N:").and_then(|v| v.rsplit_once('|')).map(|v| v.0).unwrap_or("");
+                let bits = if x.is_nan() { "nan".to_string() } else { format!("{:x}", (if x == 0.0 { 0.0f64 } else { x }).to_bits()) };
+                // the string form is the oracle's; string(EXPR) is a corpus entry of its own
+                format!("N:{}|{}", want_str, bits)
+            }
+            Ok(Value::Node(ns)) => {
+                let mut keys: Vec<String> = vec![];
+                for n in ns.iter() {
+                    match n {
+                        xml_dom::XmlNode::Attribute(a) => {
+                            let owner = cd.attrs.get(&a.as_node().id()).map(|o| format!("{:05}", o)).unwrap_or_else(|| "?????".to_string());
+                            let (local, uri) = match a.as_expanded_name() {
+                                Ok(Some((local, _, uri))) => (local, uri.unwrap_or_default()),
+                                _ => ("?".to_string(), "?".to_string()),
+                            };
+                            keys.push(format!("{}@{{{}}}{}", owner, uri, local));
+                        }
+                        xml_dom::XmlNode::Namespace(_) => keys.push("namespace-node".to_string()),
+                        other => keys.push(cd.tree.get(&other.id()).map(|o| format!("{:05}", o)).unwrap_or_else(|| format!("?{}", other.node_name()))),
+                    }
+                }
+                let listed = keys.len();
+                keys.sort();
+                keys.dedup();
+                if keys.len() != listed {
+                    format!("NS:{} (a node is listed twice: {} entries)", keys.join(","), listed)
+                } else {
+                    format!("NS:{}", keys.join(","))
+                }
+            }
+        }
+    })) {
+        Ok(s) => s,
+        Err(e) => format!("PANIC({})", e.downcast_ref::<&str>().map(|s| s.to_string()).or_else(|| e.downcast_ref::<String>().cloned()).unwrap_or_default()),
+    };
+    Outcome { observed, expected: expected.to_string(), note: format!("doc {}: {}", doc_index, corpus_unesc(XPATH_CORPUS_DOCS.lines().nth(doc_index).unwrap_or(""))) }
+}
